@@ -13,7 +13,8 @@ BOUNDS = {"quick": "D=1: data/filter lengths 1..4 (shorter/equal/longer), stride
 OUTSIDE = ["lengths > 4, D > 3", "GPU (cuDNN) paths"]
 ASSUMPTIONS = ["scipy.signal.convolve/correlate compute the documented full/valid convolution/correlation (definition stub for object arrays, "
                "validated against SciPy at start-up); data, filter and output values arbitrary complex"]
-EXPLANATION = ("C08: every output sample equals the sum over input channels and taps of data times flipped filter (independent triple-loop "
+EXPLANATION = ("Call histories: sequences of calls with the same shapes and different strides in one process must each satisfy the definition and adjoint identities (no state carried between calls).  "
+               "C08: every output sample equals the sum over input channels and taps of data times flipped filter (independent triple-loop "
                "oracle, 'full'/'valid', strides); both adjoints satisfy the inner-product identity and return the requested shapes; a shape "
                "combination the mode admits must be computed correctly or raise.")
 
@@ -91,7 +92,27 @@ def h_conv(cfg, V):
     return obl
 
 
-HARNESSES = {"conv": h_conv}
+def h_seq(cfg, V):
+    """history: the same shapes with a SEQUENCE of different strides in one process (each call must be independent of the earlier ones)"""
+    from sigpy import conv
+    dsh, fsh, mode, mc = cfg["dshape"], cfg["fshape"], cfg["mode"], cfg["mc"]
+    d = V.array("d", dsh)
+    f = V.array("f", fsh)
+    obl = []
+    for step, strides in enumerate(cfg["seq"]):
+        y = conv.convolve(d, f, mode=mode, strides=strides, multi_channel=mc)
+        ref = _definition(d, f, mode, strides, mc, V)
+        obl.append(("call%d_forward_is_definition" % step, O.eq(y, ref)))
+        o = V.array("o%d" % step, list(ref.shape))
+        lhs = O.vdot(ref, o)
+        da = conv.convolve_data_adjoint(o, f, dsh, mode=mode, strides=strides, multi_channel=mc)
+        obl.append(("call%d_data_adjoint_identity" % step, O.eq(lhs, O.vdot(d, da))))
+        fa = conv.convolve_filter_adjoint(o, d, fsh, mode=mode, strides=strides, multi_channel=mc)
+        obl.append(("call%d_filter_adjoint_identity" % step, O.eq(lhs, O.vdot(f, fa))))
+    return obl
+
+
+HARNESSES = {"conv": h_conv, "seq": h_seq}
 
 
 def configs(tier, seed):
@@ -125,6 +146,15 @@ def configs(tier, seed):
                 add([ci, 3], [co, ci, 2], mode, [2], True)
         add([2, 3, 2], [2, 2, 2], "valid", None, False)
         add([3, 2, 3], [2, 2, 2], "full", [2, 2, 2], False)
+    # call histories: same shapes, different strides with equal output length (and back)
+    seqs = [([5], [1], "full", [[3], [4], [3]], False), ([4], [1], "full", [[2], [3]], False), ([3], [2], "full", [[3], [2], [3]], False),
+            ([5], [2], "valid", [[2], [3], [2]], False), ([2], [4], "valid", [[2], [1], [2]], False), ([3, 3], [1, 1], "full", [[2, 2], [2, 1], [1, 2], [2, 2]], False),
+            ([2, 4], [1, 2, 1], "full", [[3], [2], [3]], True)]
+    if full:
+        seqs += [([5, 5], [1, 1], "full", [[2, 3], [2, 4], [2, 3]], False), ([2, 2, 4], [2, 2, 1], "full", [[3], [2]], True),
+                 ([4, 3], [2, 2], "valid", [[2, 1], [1, 2], [2, 2], [2, 1]], False)]
+    for dsh, fsh, mode, seq, mc in seqs:
+        out.append({"id": "seq:d=%s:f=%s:%s:%s:mc=%s" % (dsh, fsh, mode, seq, mc), "h": "seq", "dshape": dsh, "fshape": fsh, "mode": mode, "seq": seq, "mc": mc})
     seen, res = set(), []
     for c in out:
         if c["id"] not in seen:
